@@ -365,7 +365,13 @@ func (e *Engine) call(fr *Frame, st *State, reach Term, site ssa.Instruction, c 
 				continue
 			}
 			cur := Select(e.heldArr(st), m, SInt)
-			e.oblige("lock.release", "lock.defer@"+label, "a lock taken by this function is held across the call to "+id+" without a deferred Unlock (a panic in the callee leaks the lock)", reach, Eq(cur, IntLit(0)), nil)
+			// not held any more, or some registered deferred unlock releases this very mutex (decided by the solver:
+			// the two references may be separate loads of the same field)
+			cond := Eq(cur, IntLit(0))
+			for _, dm := range e.deferredUnlocks(st) {
+				cond = Or(cond, Eq(dm, m))
+			}
+			e.oblige("lock.release", "lock.defer@"+label, "a lock taken by this function is held across the call to "+id+" without a deferred Unlock (a panic in the callee leaks the lock)", reach, cond, nil)
 		}
 	}
 	if c.IsInvoke() {
@@ -919,7 +925,9 @@ func (e *Engine) inline(st *State, reach Term, callee *ssa.Function, clo *Closur
 	}
 	savedDefers := st.defers
 	st.defers = nil
+	e.outerDefers = append(e.outerDefers, savedDefers)
 	exits := e.runBody(fr, st, reach)
+	e.outerDefers = e.outerDefers[:len(e.outerDefers)-1]
 	var conds []Term
 	var sts []*State
 	var rvals []Val
@@ -1272,9 +1280,37 @@ const lockComp = "L.held"
 func (e *Engine) heldArr(st *State) Term { return st.comp(lockComp, ArraySort(SInt, SInt)) }
 
 // lockPrimitive models sync.Mutex / sync.RWMutex operations on the ghost lockset.
+// allDefers: the deferred calls registered on this path, including those of the frames an inlined callee runs under.
+func (e *Engine) allDefers(st *State) []*deferEntry {
+	out := append([]*deferEntry{}, st.defers...)
+	for _, ds := range e.outerDefers {
+		out = append(out, ds...)
+	}
+	return out
+}
+
+// deferredUnlocks: the mutexes of the deferred Unlock/RUnlock calls registered in the current state.
+func (e *Engine) deferredUnlocks(st *State) []Term {
+	var out []Term
+	for _, d := range e.allDefers(st) {
+		if d.instr == nil {
+			continue
+		}
+		id, _ := e.P.calleeID(d.instr.Common())
+		if id != "sync.Mutex.Unlock" && id != "sync.RWMutex.Unlock" && id != "sync.RWMutex.RUnlock" {
+			continue
+		}
+		if len(d.args) == 0 {
+			continue
+		}
+		out = append(out, e.reify(st, True, d.args[0]))
+	}
+	return out
+}
+
 // hasDeferredUnlock: a deferred Unlock/RUnlock of mutex m is registered in the current state.
 func (e *Engine) hasDeferredUnlock(st *State, m Term) bool {
-	for _, d := range st.defers {
+	for _, d := range e.allDefers(st) {
 		if d.instr == nil {
 			continue
 		}
